@@ -1,6 +1,6 @@
 From Coq Require Import List ZArith.
-From BQ Require Import circuit.CModel.
+From BQ Require Import circuit.CModel circuit.CPickle.
 From Coq Require Extraction ExtrOcamlBasic.
 Extraction "circuit_model.ml" append extend append_circuit insert insert_circuit pop batch_pop replace
   batch_replace replace_with_circuit unfold unfold_all_fuel compress append_qudit insert_qudit pop_qudit
-  renumber_qudits clear c_add c_iadd c_mul c_imul iter_ops riter_ops fwd_cycle params_of.
+  renumber_qudits clear c_add c_iadd c_mul c_imul iter_ops riter_ops fwd_cycle params_of reduce.
